@@ -110,6 +110,11 @@ def solve_scalar(
         denominator = sympy.collect_const(
             next(iter((denominator.terms.values()))).simplify()
         ).doit()  # Not sure why doit is needed here, but it is.
+        if denominator == 0:
+            raise ValueError(
+                "The subspaces must not share eigenvalues: the term with shifts "
+                f"{tuple(shift)} couples levels of equal unperturbed energy."
+            )
         new_shifts[shift] = sign * (denominator) ** -sympy.S.One * coeff
 
     result = (
